@@ -43,6 +43,13 @@ Theorem c02_batch_future_of_source : forall base bts ls,
 Proof. exact done_main_py_eq. Qed.
 Print Assumptions c02_batch_future_of_source.
 
+(* an acknowledgement without a base offset (a duplicate whose metadata the broker no longer retains: base_offset -1)
+   names no offset for any record of the batch (repair F43: it used to report -1 + relative offset) *)
+Theorem c02_unknown_base_offset_names_no_offset : forall base bts ls fs k r,
+  base < 0 -> In (k, r) (DoneGen.done_py base bts ls fs) -> exists ts ty, r = RMeta (-1) ts ty ls.
+Proof. exact unknown_base_names_no_offset. Qed.
+Print Assumptions c02_unknown_base_offset_names_no_offset.
+
 Theorem c02_done_once : forall base bts ls fs, NoDup (map fst (done base bts ls fs)).
 Proof. exact done_once. Qed.
 Print Assumptions c02_done_once.
